@@ -137,7 +137,7 @@ def check(rep):
             tags = set()
             if agree and x[0] in end_atoms and x[3] in ("transition", "none"):
                 tags = {"transition_leaves_end_group"}
-            elif agree and lists and x[3] == "termination":
+            elif agree and lists and (x[3] == "termination" or (x[3] == "stochastic" and x[1] in end_atoms)):
                 tags = {"list_descriptor_termination_duplicate"}
             rep.fail("oracle", f"edge {x[0]} -> {x[1]} ({x[3]}, weight {x[4]}, order {x[2]}) is not an admissible link of the notation", {**ident, "edge": list(x)},
                      expected="absent", observed=list(x), tags=tags)
